@@ -1,10 +1,14 @@
 /-
 C07N, non-vacuity of the history theorem FROM `Net.init`: a history that creates IDL time points and
-distance constraints, an LRA and an RDL variable, a SAT variable, a reified disjunction, adds clauses, and
-searches:  x1 x2 x3;  b1 : x3 - x1 ≤ 5,  b2 : x3 - x2 ≤ 2,  b3 : x1 - x2 ≤ -3;  b4 a plain SAT variable;
-b5 := b1 ∨ b4 (reified);  clauses [b5], [¬b4];  `propagate` (unit propagation gives b1, handed to IDL);
-`assume ¬b2` (IDL records the lemma [¬b3, b2, ¬b1] and ¬b3 is propagated);  `next` (the blocking clause
-[b2] is added and propagated at root level).
+distance constraints, an IDL equality through `idlNewRel`, an LRA variable and two LRA assertions through
+`lraNewRel`, an RDL variable, a SAT variable, a reified disjunction, adds clauses, and searches:
+x1 x2 x3;  b1 : x3 - x1 ≤ 5,  b2 : x3 - x2 ≤ 2,  b3 : x1 - x2 ≤ -3;  `idlNewRel .eq x3 (x1 + 4)` creates
+b4 : x3 - x1 ≤ 4,  b5 : x1 - x3 ≤ -4 and the reified conjunction b6 := b4 ∧ b5;  the LRA variable y0 and the
+assertions b7 : y0 ≤ 5,  b8 : y0 ≥ 7 (no slack variable: the expression `y0` names an existing variable);
+b9 a plain SAT variable;  b10 := b1 ∨ b9 (reified);  clauses [b10], [¬b9], [b7];  `propagate` (unit
+propagation gives b1, handed to IDL, and b7, handed to LRA, which records the lemma [¬b8, ¬b7] and
+propagates ¬b8);  `assume ¬b2` (IDL records the lemma [¬b3, b2, ¬b1] and ¬b3 is propagated);  `next` (the
+blocking clause [b2] is added and propagated at root level).
 -/
 import OratioProofs.Lemmas.NetInvD
 
@@ -12,9 +16,19 @@ namespace Oratio
 namespace NetEx2
 open Net Sat
 
+/-- the LRA variable `x0` and the constants 5 and 7 as linear expressions -/
+def x0 : Lin := Lin.var 0 R.one
+def c5 : Lin := Lin.const (R.ofInt 5)
+def c7 : Lin := Lin.const (R.ofInt 7)
+
+/-- the IDL expressions `x3` and `x1 + 4` -/
+def t3 : Lin := Lin.var 3 R.one
+def t1p4 : Lin := ⟨[(1, R.one)], R.ofInt 4⟩
+
 def hist : List NetOp := [.idlNewVar, .idlNewVar, .idlNewVar, .idlNewDistance 1 3 5, .idlNewDistance 2 3 2,
-  .idlNewDistance 2 1 (-3), .lraNewVar, .rdlNewVar, .satNewVar, .disj [⟨1, true⟩, ⟨4, true⟩], .clause [⟨5, true⟩],
-  .clause [⟨4, false⟩], .propagate, .assume ⟨2, false⟩, .next]
+  .idlNewDistance 2 1 (-3), .idlNewRel .eq t3 t1p4, .lraNewVar, .lraNewRel .leq x0 c5, .lraNewRel .geq x0 c7,
+  .rdlNewVar, .satNewVar, .disj [⟨1, true⟩, ⟨9, true⟩], .clause [⟨10, true⟩], .clause [⟨9, false⟩],
+  .clause [⟨7, true⟩], .propagate, .assume ⟨2, false⟩, .next]
 
 /-- the state after the first `k` operations -/
 def st (k : Nat) : NetRun := (NetRun.steps 100 ⟨Net.init, []⟩ (hist.take k)).getD ⟨Net.init, []⟩
@@ -32,7 +46,13 @@ theorem step4 : NetRun.step 100 (st 4) (.idlNewDistance 2 3 2) = some (st 5, tru
 set_option maxRecDepth 100000 in
 theorem step5 : NetRun.step 100 (st 5) (.idlNewDistance 2 1 (-3)) = some (st 6, true) := by rfl
 set_option maxRecDepth 100000 in
-theorem run_all : NetRun.steps 100 ⟨Net.init, []⟩ hist = some (st 15) := by rfl
+theorem step6 : NetRun.step 100 (st 6) (.idlNewRel .eq t3 t1p4) = some (st 7, true) := by rfl
+set_option maxRecDepth 100000 in
+theorem step7 : NetRun.step 100 (st 7) .lraNewVar = some (st 8, true) := by rfl
+set_option maxRecDepth 100000 in
+theorem step8 : NetRun.step 100 (st 8) (.lraNewRel .leq x0 c5) = some (st 9, true) := by rfl
+set_option maxRecDepth 100000 in
+theorem run_all : NetRun.steps 100 ⟨Net.init, []⟩ hist = some (st 19) := by rfl
 
 theorem rooms_of_noRoom (fuel : Nat) : ∀ (ops : List NetOp), (∀ op ∈ ops, ∀ r : NetRun, r.room op) → ∀ r : NetRun, r.rooms fuel ops
   | [], _, _ => trivial
@@ -62,7 +82,35 @@ theorem ok1 : Dl.ConstrsOk 10 (st 1).n.idl := ok_of_list (l := []) (by rfl) (fun
 theorem ok2 : Dl.ConstrsOk 10 (st 2).n.idl := ok_of_list (l := []) (by rfl) (fun c hc => by cases hc)
 theorem ok3 : Dl.ConstrsOk 10 (st 3).n.idl := ok_of_list (l := []) (by rfl) (fun c hc => by cases hc)
 theorem ok4 : Dl.ConstrsOk 10 (st 4).n.idl := ok_of_list (l := [⟨1, 1, 3, 5⟩]) (by rfl) (by decide)
+set_option maxRecDepth 100000 in
+theorem ex6 : (st 6).n.idl.Exact 10 [] := by
+  have h := newDistance_exact (s := (st 5).n.sat) ex5 2 1 (-3)
+  have e : (st 6).n.idl = (Dl.newDistance idlOps (st 5).n.sat (st 5).n.idl 2 1 (-3)).2.2 := by rfl
+  rw [e]; exact h
+theorem ok6 : Dl.ConstrsOk 10 (st 6).n.idl :=
+  ok_of_list (l := [⟨1, 1, 3, 5⟩, ⟨2, 2, 3, 2⟩, ⟨3, 2, 1, -3⟩]) (by rfl) (by decide)
+theorem ok7 : Dl.ConstrsOk 10 (st 7).n.idl :=
+  ok_of_list (l := [⟨1, 1, 3, 5⟩, ⟨2, 2, 3, 2⟩, ⟨3, 2, 1, -3⟩, ⟨4, 1, 3, 4⟩, ⟨5, 3, 1, -4⟩]) (by rfl) (by decide)
 theorem ok5 : Dl.ConstrsOk 10 (st 5).n.idl := ok_of_list (l := [⟨1, 1, 3, 5⟩, ⟨2, 2, 3, 2⟩]) (by rfl) (by decide)
+
+theorem linOK_x0 {t : Lra} (h : t.vals.length = 1) : Lra.LinOK t x0 := by
+  refine ⟨⟨trivial, fun t ht => ?_, by decide, by decide⟩, fun p hp => ?_⟩
+  · simp only [x0, Lin.var, List.mem_singleton] at ht
+    subst ht
+    exact ⟨by decide, by decide⟩
+  simp only [x0, Lin.var, List.mem_singleton] at hp
+  subst hp
+  exact ⟨by rw [h]; decide, by decide⟩
+
+theorem linOK_const {t : Lra} (k : R) (hk : k.WF ∧ k.den ≠ 0) : Lra.LinOK t (Lin.const k) :=
+  ⟨⟨trivial, (fun p hp => by cases hp), hk.1, hk.2⟩, fun p hp => by cases hp⟩
+
+/-- the request creates no slack variable: the number of LRA variables stays 1 -/
+theorem noSlack (k : Nat) (rel : LRel) (a b : Lin) (l : Lit) (n' : Net)
+    (h1 : (Net.lraNewRel (st k).n rel a b).map (fun p => p.2.lra.vals.length) = some (st k).n.lra.vals.length)
+    (h : Net.lraNewRel (st k).n rel a b = some (l, n')) : n'.lra.vals.length = (st k).n.lra.vals.length := by
+  rw [h] at h1
+  simpa using h1
 
 theorem hist_rooms : (st 0).rooms 100 hist := by
   refine ⟨⟨10, [], ex0, ok0, by decide⟩, fun r' b hs => ?_⟩
@@ -77,19 +125,35 @@ theorem hist_rooms : (st 0).rooms 100 hist := by
   rw [step4] at hs; cases hs
   refine ⟨⟨10, [], ex5, ok5, by decide, by decide, by decide⟩, fun r' b hs => ?_⟩
   rw [step5] at hs; cases hs
+  refine ⟨⟨10, [], ex6, ok6, fun l n' h => ?_⟩, fun r' b hs => ?_⟩
+  · have h1 : (Net.idlNewRel (st 6).n .eq t3 t1p4).map (fun p => p.2.idl) = some (st 7).n.idl := by rfl
+    rw [h] at h1
+    simp only [Option.map_some, Option.some.injEq] at h1
+    rw [h1]; exact ok7
+  rw [step6] at hs; cases hs
+  refine ⟨trivial, fun r' b hs => ?_⟩
+  rw [step7] at hs; cases hs
+  refine ⟨⟨linOK_x0 rfl, linOK_const _ ⟨by decide, by decide⟩, fun l n' h => noSlack 8 _ x0 c5 l n' (by rfl) h⟩, fun r' b hs => ?_⟩
+  rw [step8] at hs; cases hs
+  refine ⟨⟨linOK_x0 rfl, linOK_const _ ⟨by decide, by decide⟩, fun l n' h => noSlack 9 _ x0 c7 l n' (by rfl) h⟩, fun r' b hs => ?_⟩
   exact rooms_of_noRoom 100 _ (by
     intro op hop r
     simp only [List.mem_cons, List.not_mem_nil, or_false] at hop
     rcases hop with rfl | rfl | rfl | rfl | rfl | rfl | rfl | rfl | rfl <;> trivial) _
 
 /-- the history runs from `Net.init`; by the theorem the final network satisfies the invariant; concretely:
-    the IDL lemma `[¬b3, b2, ¬b1]` and the blocking clause `[b2]` were recorded, the network is back at
-    root level with `b1, ¬b4, b5, b2` true, and seven clauses were added (three definitional clauses of the
-    disjunction, the unit of the false constant, the two clauses, the blocking clause) -/
-theorem final_ok : NetOK (st 15) ∧ (st 15).n.sat.log = [[⟨3, false⟩, ⟨2, true⟩, ⟨1, false⟩], [⟨2, true⟩]] ∧
-    (st 15).n.sat.decisionLevel = 0 ∧ (st 15).orig.length = 7 ∧ (st 15).n.sat.dead = false :=
-  ⟨(steps_ok hist ⟨Net.init, []⟩ (st 15) netOK_init (guards_noRows hist _ (by decide)) hist_rooms run_all).1,
-    by decide, by decide, by decide, by decide⟩
+    the LRA lemma `[¬b8, ¬b7]`, the IDL lemma `[¬b3, b2, ¬b1]` and the blocking clause `[b2]` were recorded,
+    the network is back at root level, fifteen clauses were added (the definitional clauses of the conjunction
+    and of the disjunction, the unit of the false constant, the three clauses, the blocking clause), the IDL
+    equality created the constraints b4, b5, the two LRA assertions are controlled by b7 and b8, and `¬b8` was
+    propagated by the LRA theory -/
+theorem final_ok : NetOK (st 19) ∧
+    (st 19).n.sat.log = [[⟨8, false⟩, ⟨7, false⟩], [⟨3, false⟩, ⟨2, true⟩, ⟨1, false⟩], [⟨2, true⟩]] ∧
+    (st 19).n.sat.decisionLevel = 0 ∧ (st 19).orig.length = 15 ∧ (st 19).n.sat.dead = false ∧
+    (st 19).n.lra.vAsrts.map (·.1) = [7, 8] ∧ (st 19).n.sat.value ⟨8, true⟩ = some false ∧
+    (st 19).n.idl.varDists.map (·.b) = [1, 2, 3, 4, 5] :=
+  ⟨(steps_ok hist ⟨Net.init, []⟩ (st 19) netOK_init (guards_noRows hist _ (by decide) hist_rooms) hist_rooms run_all).1,
+    by decide, by decide, by decide, by decide, by decide, by decide, by decide⟩
 
 end NetEx2
 end Oratio
